@@ -1,8 +1,8 @@
 SPECIFICATION Spec
 CONSTANTS
   MaxNodes = 2
-  MaxAttrs = 2
-  Skels = {"A", "B"}
+  MaxAttrs = 0
+  Skels = {"B"}
 INVARIANT CodeNeverStricter
 INVARIANT DiffOnlyUnderAlias
 INVARIANT BogusInvalid
